@@ -663,7 +663,8 @@ PROPS = {
     "C15": {
         "module": "ZenonVerif.Props.C15",
         "streams": [S("p2p", 2500, 60000, timeout=3000),
-                    S("frame", 3000, 300000, driver=False), S("disc", 3000, 300000, driver=False)],
+                    S("frame", 3000, 300000, driver=False), S("disc", 3000, 300000, driver=False),
+                    S("p2p-net", 40, 2000, driver=False, timeout=3000)],
         "rule": "p2p stream: one peer session per message against a real ProtocolManager over the mock node's ChainBridge "
                 "(chain of 530 momentums): 12 handshake variants; first of all the requests of the repaired findings F7a/F7b (12 "
                 "GetBlockHashes requests naming unknown / zero / one-bit-off hashes, GetBlockHashesFromNumber (0,0), (0,1), (1,0) — "
@@ -692,18 +693,54 @@ PROPS = {
                 "same datagrams go to a live ListenUDP node on loopback from an unbonded and from a bonded peer, which must keep "
                 "answering an honest ping (class=live-node-silent); frame: contents of length 0, every single byte, code strings "
                 "promising 1..9 bytes, non-canonical / list / >64-bit codes, padding boundaries, arbitrary header tail and padding bytes; "
-                "oracle: content = RLP uint64 code + rest, anything else => error, the next frame is still read",
+                "oracle: content = RLP uint64 code + rest, anything else => error, the next frame is still read. "
+                "LOGGING: the p2p (main and liveness part), disc and frame streams and p2p-net run with production-like logging — every "
+                "logger formats every record (logfmt, the format of common.InitLogging) at debug level into io.Discard — so that "
+                "String()/Error()/Format methods in the arguments of log calls run on the values the remote peer sent. "
+                "p2p-net stream (s_p2p_net.go, s_p2p_sync.go, rlpx_client.go; monitors only): the node runs in a CHILD process behind a "
+                "real p2p.Server on loopback (real RLPx handshakes, the node's own Peer.run / readLoop / pingLoop), remote peers are raw "
+                "RLPx clients (initiator handshake written out from the wire format, frames through p2p.NewFrameRWVerif) that speak raw "
+                "devp2p; a death of the child is reported as class=process-terminated with the panic, the frames of the node's code and "
+                "the last messages sent. Part A, the devp2p BASE protocol after AND instead of the handshake (about 290 directed cases + n "
+                "random ones, one connection each): disconnect with reasons 0..20, 127..257, 2^16+-1, 2^31, 2^32+-1, 2^62, 2^63-2..2^63+1, "
+                "2^64-2, 2^64-1 in the standard list form and as bare integer / two reasons / nested list / leading zero / empty list / "
+                "empty string / no payload / 9-byte integer / truncated / garbage / 70 kB; ping and pong with no payload, lists, 1 KiB, "
+                "64 KiB, 1 MiB; handshakes repeated and altered (versions 0/5/2^64-1, zero / foreign id, no / other / doubled / 1000 caps, "
+                "names of 1900 and 2100 bytes, garbage, truncated); base codes 4..15; sub-protocol codes 25, 26, 2^32, 2^63, 2^64-1; after "
+                "every case an honest peer that stays connected all along must not be disconnected, gets its pong and the answer to a "
+                "hash request, and every 25th case a newcomer is accepted and served. Part B, the downloader / fetcher under scripted "
+                "peers: 49 scenarios, each a follower node (real chain, verifier, bridge) at height 12 / 7 / 21 (by seed; thorough: all, "
+                "and 2) behind its own ProtocolManager + p2p.Server, run concurrently: the peer the node synchronises from (highest "
+                "total difficulty) goes SILENT at 7 stages (status, ancestor search early / late, first hash pack, terminating hash "
+                "pack, first / third block pack; honest peer connected before or after) while a bystander sends unsolicited "
+                "BlockHashes (junk, empty, genuine) / Blocks (empty, genuine, mis-numbered) / NewBlockHashes / NewBlock each time the silent peer "
+                "receives a request; the origin ANSWERS with 22 kinds of hostile packs (ancestor probe empty / unknown / ascending, search "
+                "answered with 0 / 2 / unknown / other-height hashes, hash packs duplicated / repeated / ascending / one at a time / unknown / "
+                "never ending, block packs empty / partial / repeated / unrequested / reversed / mis-numbered / doubled); a non-origin helper "
+                "answers block requests with mis-numbered / foreign-body / forged / empty / unrequested packs; ONE import batch assembled from "
+                "two peers (forged top momentum — signature, changes hash, producer, timestamp, data under the genuine hash — from X, "
+                "everything else from honest H, batch starting with 1 or K momentums the node holds). Monitors with deadlines from the "
+                "real time-outs (5 s hash, 9 s block, 4 s cycle; 40 s / 20 s): the node reaches the honest peer's height "
+                "(class=sync-stalled), a peer silent on a hash request is disconnected (class=offender-not-dropped), an honest peer is "
+                "never disconnected and still served (class=honest-peer-dropped / -not-served), the peer that delivered a refused momentum "
+                "— and nobody else — is disconnected, the node holds only the producer's momentums",
         "partial": "proved: reply caps (every chain, every request, no premise), totality (every message; premises on the node only: "
                    "it holds its genesis momentum and fewer than 2^64-1 momentums, both shown necessary) and size gate of the handler "
                    "MODEL; the two clauses that were false of the code (F7a, F7b) are repaired (d85e958, 99f2642) and their inputs are "
                    "sent to the real handler on every run. Not proved, checked by differential run only: survival on every byte "
                    "string (RLP library, downloader/fetcher goroutines), allocation inside rlp, liveness of the message loop; "
                    "rlpx frame MAC/size and discovery packet checks have no model/theorem (T4 frame_reject not built): they are "
-                   "exercised by the monitor-only streams frame and disc",
+                   "exercised by the monitor-only streams frame and disc; the devp2p base protocol (p2p/peer.go, p2p/server.go) and the "
+                   "downloader / fetcher state machine have no model either: monitor-only stream p2p-net (process survival, liveness with "
+                   "deadlines, blame). Known findings of that stream, not repaired: FU1 (a mis-numbered block pack of ANY peer makes the "
+                   "node drop the honest peer it synchronises from — errInvalidChain blames the origin) and FU2 (a stale `false` left on "
+                   "processCh by a cancelled synchronisation makes the next one finish its block fetcher at once and its hash fetcher block "
+                   "for ever: the node never synchronises again; timing dependent)",
         "assumptions": ["go-ethereum rlp decodes as specified (the stream classifies each payload with the same decoder the handler uses)",
                         "the chain is abstracted to its height; hashes are identified with the height of the momentum that carries them",
                         "handler_total: the node holds its genesis momentum and its height is below 2^64-1 (no premise on the message)"],
-        "trusted_base": ["p2p.MsgPipe session harness (probe message delimits the node's answer)"],
+        "trusted_base": ["p2p.MsgPipe session harness (probe message delimits the node's answer)",
+                         "p2p-net: the harness's RLPx initiator handshake and scripted eth/61 peers (honest answers mirror handleMsg: hashes from the highest height down)"],
     },
     "C16": {
         "module": "ZenonVerif.Props.C16",
@@ -734,9 +771,29 @@ PROPS = {
                 "momentums that extends the frontier must be adopted: model-free monitor M5). Mutations of fields the node recomputes for "
                 "itself (plasma fields, descendants under an unchanged hash, call data of embedded sends, the stand-alone copy of a "
                 "contract send) are `lenient`: adopting with the producer's bytes and refusing both satisfy C16, the valid bit of the "
-                "line follows the node's choice. n counts test batches (the clean "
+                "line follows the node's choice. "
+                "Unlisted blocks (corruption kinds extrablock-front / -middle / -end, s_syncbatches.go extraDonors): a momentum delivered "
+                "with ONE MORE account block than it lists — a genuine block of a SIBLING momentum on another branch of the history "
+                "(three extra one-momentum branches give ~50 momentums a sibling), i.e. a block of another account that is valid on its "
+                "own on the very state the momentum is verified on (previous = that account's frontier, acknowledges an ancestor, its send "
+                "confirmed by an ancestor) — in front of / between / behind the listed blocks, and extrablock-of-batch (a copy of a block "
+                "another momentum of the same batch lists); directed (4 momentums x 4 kinds, with 0-2 known momentums in front and 0-3 "
+                "genuine ones behind; thorough 16) and in the random and directed corruption sweeps; InsertChain must refuse at that "
+                "element and adopt the genuine batch afterwards. "
+                "Deliveries that WAIT for the insert lock (s_syncbatches_conc.go, 15 directed cases per run): the harness holds "
+                "chain.AcquireInsert, starts InsertChain on a goroutine, extends the node's chain by 0-3 trunk momentums under the held "
+                "lock (ApplyBlock / ForceAddAccountBlockTransaction / ApplyMomentum / AddMomentumTransaction — a line of its own, "
+                "extend-under-lock), releases and waits (30 s deadline): side chains longer / equal / shorter than the frontier before "
+                "and after the growth, inside the window before and outside / at its edge after, extensions completely / exactly / "
+                "partly known after the growth, batches that extend the old frontier and fork off the grown part; monitors M2 (never "
+                "shorter, rollback <= 30) and the model line are evaluated against the chain the node has AFTER the growth; M6: a batch "
+                "of which the node holds every element is a no-op without error (class=known-batch-not-noop). "
+                "n counts test batches (the clean "
                 "batches that position a follower are extra lines, also replayed); distinct = distinct lines",
-        "partial": "momentum + account-block verification is an oracle (`valid`) of the model — C03/C05 own it; the stream supplies it as "
+        "partial": "the model's node is the chain at insertion time: theorem insertChain_reads_under_lock pins (AST facts) that InsertChain "
+                   "reads nothing from the node before c.chain.AcquireInsert and releases the lock by a deferred Unlock, and the stream "
+                   "delivers batches that wait for the lock while the chain grows. "
+                   "momentum + account-block verification is an oracle (`valid`) of the model — C03/C05 own it; the stream supplies it as "
                    "'bytes are the producer's own' and the monitor checks the node only ever holds such bytes. Downloader/fetcher "
                    "queueing and peer dropping are not modelled. insert_total holds for every node and batch (F7c repaired in 264f72a: "
                    "empty and unlinkable batches are refused without touching the node); the rollback happens before "
